@@ -151,6 +151,12 @@ int run_cycle(const Args& a) {
                 } else {
                     (void) yk::remove(toks.back(), "abandoned", "ab-key");
                 }
+                if (r.chance(1, 2)) {
+                    // ... and a node: a family that splits the border and is drained again (an emptied leaf is unlinked and retired)
+                    for (int i = 0; i < 24; ++i) { yput(toks.back(), "abandoned", "ab-n" + std::to_string(100 + i), big); }
+                    for (int i = 0; i < 24; ++i) { (void) yk::remove(toks.back(), "abandoned", "ab-n" + std::to_string(100 + i)); }
+                    rep.count("cycles_ending_with_an_open_session_that_retired_nodes");
+                }
                 rep.count("cycles_ending_with_an_open_session_that_retired_memory");
             }
             if (!toks.empty() && r.chance(1, 2)) {
